@@ -234,3 +234,129 @@ Example C06_example :
   /\ match snd (interpret (bs "f") (bs "print ""ab"" * -1") false false false) with IRun _ rr => rr_res rr = VErr 15 (bs "MUL: negative repeat count") | _ => False end.
 Proof. vm_compute. split; reflexivity. Qed.
 """)
+
+PROPS["C15"] = ("""C15: Bind never panics and never silently drops or coerces data.
+
+   Model/Reflect.v is the transcription of reflect.go (copyBlocks / copyBlock / setField) together with the
+   parts of package reflect it relies on (FieldByNameFunc's breadth-first search with annihilation of ambiguous
+   names, FieldByIndexErr's pointer indirections, AssignableTo on the value kinds BCL produces).  The harness
+   runs it against the real Bind on generated target types (reflect.StructOf + compiled-in named types) and
+   blocks.  The theorems:
+     total     - Bind returns a value or an error for every target and binding (no panic branch of the model
+                 is reachable; the depth bound 64 is the model's recursion fuel, the VM limits nesting to 16);
+     errors    - each defect named in the property is an error, and the first faulty field in key order is
+                 the one reported;
+     faithful  - a nil return means every scalar of the block, recursively every nested block, and a non-empty
+                 name were stored unchanged in exported, assignable, pairwise NON-OVERLAPPING fields.  This
+                 theorem was false before the repair recorded in known_findings.txt ("fixed: C15 ... embedded"):
+                 a promoted field and a nested block stored into the embedded struct overwrote each other;
+     slice     - a slice target gets a fresh slice of exactly the bound blocks, or, on any error, nothing.""",
+"""From Coq Require Import List Lia Permutation.
+From BCL Require Import Model.Reflect Proofs.ReflectProofs.
+Open Scope N_scope.""",
+[("C15_total", "ReflectProofs", "C15_total", "Bind never panics"),
+ ("C15_faithful", "ReflectProofs", "C15_faithful", "nil only if everything was stored unchanged, in distinct non-overlapping exported fields"),
+ ("C15_faithful_deep", "ReflectProofs", "C15_faithful_deep", "the same through nested blocks at every level"),
+ ("C15_errors_none", "ReflectProofs", "C15_errors_none", "success excludes every defect"),
+ ("C15_errors_first", "ReflectProofs", "C15_errors_first", "the first faulty field in sorted key order is the error reported"),
+ ("C15_errors_mapping", "ReflectProofs", "C15_errors_mapping", "a missing counterpart"),
+ ("C15_errors_unexported", "ReflectProofs", "C15_errors_unexported", "an unexported counterpart"),
+ ("C15_errors_nil_value", "ReflectProofs", "C15_errors_nil_value", "a nil value"),
+ ("C15_errors_type_mismatch", "ReflectProofs", "C15_errors_type_mismatch", "a type mismatch: no coercion (assignable_no_coercion)"),
+ ("C15_errors_block_not_struct", "ReflectProofs", "C15_errors_block_not_struct", "a non-struct destination for a nested block"),
+ ("C15_errors_dup_field", "ReflectProofs", "C15_errors_dup_field", "two keys addressing the same or overlapping storage"),
+ ("C15_errors_no_binding", "ReflectProofs", "C15_errors_no_binding", "nil binding"),
+ ("C15_errors_nil_iface", "ReflectProofs", "C15_errors_nil_iface", "nil target"),
+ ("C15_errors_not_pointer", "ReflectProofs", "C15_errors_not_pointer", "non-pointer target"),
+ ("C15_errors_nil_pointer", "ReflectProofs", "C15_errors_nil_pointer", "nil pointer target"),
+ ("C15_errors_not_struct", "ReflectProofs", "C15_errors_not_struct", "struct binding, pointer to a non-struct"),
+ ("C15_errors_not_slice", "ReflectProofs", "C15_errors_not_slice", "slice binding, pointer to a non-slice"),
+ ("C15_errors_elem_not_struct", "ReflectProofs", "C15_errors_elem_not_struct", "slice of non-structs"),
+ ("C15_errors_type_name", "ReflectProofs", "C15_errors_type_name", "struct type name vs block type"),
+ ("C15_slice_atomic", "ReflectProofs", "C15_slice_atomic", "a slice target is replaced as a whole or not at all"),
+ ("C15_slice_atomic_total", "ReflectProofs", "C15_slice_atomic_total", ""),
+ ("C15_slice_first_error", "ReflectProofs", "C15_slice_first_error", ""),
+ ("C15_slice_discards_old", "ReflectProofs", "C15_slice_discards_old", "previous elements never matter"),
+],
+"""
+(* non-vacuity *)
+Example C15_example :
+  bind (TgtPtr (TStruct [] [Field (bs "Name") true false [] TString; Field (bs "Port") true false [] TInt]) GZero)
+       (BdStruct (VBlock (bs "t") (bs "n") [(bs "port", VInt 5)]))
+  = BOk (GPtrTo (GStruct [GVal (VStr (bs "n")); GVal (VInt 5)])).
+Proof. vm_compute. reflexivity. Qed.
+""")
+
+PROPS["C05"] = ("""C05: Unmarshal reproduces configuration values in Go structs.
+
+   C05_bind_roundtrip: for every struct type of the supported family (`fam d`: exported, non-embedded,
+   untagged fields of scalar or nested-struct type whose names are pairwise distinct after folding case and
+   underscores; nesting depth d <= 64) and every value v of that type, binding the blocks that spell v
+   (`blocks_of`: lower-cased field names as keys, nested structs as nested blocks, a field folding to "name"
+   as the block name) into a zero target yields exactly v.  The remaining links of the chain -- writing the
+   blocks as BCL text, lexing, parsing, executing and `bind` selecting the block -- are exercised end to end
+   by the harness (render -> Unmarshal -> DeepEqual, with tags, all admitted spellings of keys and slice
+   targets), with the model's Bind as the oracle for rejected shapes; the key-matching rule (tag first,
+   then case/underscore folding) is Model/Reflect.find_field, compared with the real matcher on every case.""",
+"""From Coq Require Import List Lia.
+From BCL Require Import Model.Reflect Proofs.ReflectProofs.
+Open Scope N_scope.""",
+[("C05_bind_roundtrip", "ReflectProofs", "C05_bind_roundtrip", ""),
+ ("C05_slice_order_and_length", "ReflectProofs", "C15_slice_atomic_total", "slice target: length and order of the bound blocks, element i from block i"),
+ ("C05_slice_discards_old", "ReflectProofs", "C15_slice_discards_old", "previous elements are discarded"),
+ ("C05_key_order_irrelevant", "ReflectProofs", "C16_bind_order_deep", "the outcome does not depend on the order in which the fields are stored in the block"),
+],
+"""
+(* non-vacuity: an ordinary member of the family and a value of it *)
+Example C05_example_holds : fam 2 c05_type /\\ inhabits c05_type c05_val.
+Proof. split; [exact c05_type_fam | exact c05_val_inhabits]. Qed.
+""")
+
+PROPS["C16"] = ("""C16: Same input, same outcome.
+
+   In the model every entry point is a Gallina function, so "repeating a call gives the same outcome" holds by
+   construction; what the theorems state is that the three sources of nondeterminism in the Go code cannot
+   reach the outcome:
+     map iteration order - Bind visits the keys in sorted order, so its result is the same for every order in
+                           which the (distinct) keys of a block are enumerated, at every nesting level
+                           (C16_bind_order_deep); the parser's identRefs map is used for lookup only (the
+                           constant pool order is that of first use: Model/Parser.v has no map at all, and the
+                           harness compares dumps byte for byte);
+     goroutine schedule  - ParseFile's outcome is the same in every schedule of its three goroutines
+                           (C16_schedule_independent = ProtoProofs.C11_result_schedule_independent), and the
+                           chunking of the input does not change the compiled program (C16_chunking_irrelevant);
+     earlier calls       - no package-level variable is assigned after init and the execution side never
+                           assigns through a Prog (tables regenerated from /repo by tools/gentables on every
+                           run: C16_no_global_state, C16_prog_readonly).
+   The harness repeats parse / execute / unmarshal in one process and across processes with different
+   GOMAXPROCS and hash seeds and compares dumps, output, diagnostics, blocks, bindings, targets and errors.""",
+"""From Coq Require Import List Lia Permutation String.
+From BCL Require Import Model.Api Proofs.ParserInvProofs Model.Proto Proofs.ProtoProofs Model.Reflect Proofs.ReflectProofs.
+From BCL Require Gen.GenTables Spec.Pinned Proofs.TieGlobals.
+Open Scope N_scope.""",
+[("C16_sorted_canonical", "ReflectProofs", "C16_sorted_canonical", "the order in which Bind visits the keys is a function of the key set"),
+ ("C16_bind_order", "ReflectProofs", "C16_bind_order", ""),
+ ("C16_bind_order_deep", "ReflectProofs", "C16_bind_order_deep", "at every nesting level"),
+ ("C16_bind_order_deep_slice", "ReflectProofs", "C16_bind_order_deep_slice", ""),
+ ("C16_errors_first", "ReflectProofs", "C15_errors_first", "with several faulty fields the same one is reported: the first in sorted key order"),
+ ("C16_schedule_independent", "ProtoProofs", "C11_result_schedule_independent", "ParseFile: every complete schedule gives the same outcome", "nat_scope"),
+ ("C16_chunking_irrelevant", "ParserInvProofs", "C07_prog_equal", "the compiled program does not depend on how the input was cut into reads"),
+],
+"""
+(* no state survives a call: tables regenerated from the source on every run *)
+Theorem C16_no_global_state :
+  forallb (fun p => negb (snd p)) GenTables.globals_written_after_init = true.
+Proof. rewrite TieGlobals.tie_globals. exact TieGlobals.no_global_written. Qed.
+Print Assumptions C16_no_global_state.
+
+Theorem C16_prog_readonly : GenTables.prog_writes_in_execution = [].
+Proof. rewrite TieGlobals.tie_prog_readonly. exact TieGlobals.prog_readonly_in_execution. Qed.
+Print Assumptions C16_prog_readonly.
+
+(* non-vacuity: two enumerations of one block *)
+Example C16_example :
+  let ty := TStruct [] [Field (bs "Name") true false [] TString; Field (bs "Port") true false [] TInt; Field (bs "Host") true false [] TString] in
+  bind (TgtPtr ty GZero) (BdStruct (VBlock (bs "t") (bs "n") [(bs "port", VInt 5); (bs "host", VStr (bs "h"))]))
+  = bind (TgtPtr ty GZero) (BdStruct (VBlock (bs "t") (bs "n") [(bs "host", VStr (bs "h")); (bs "port", VInt 5)])).
+Proof. vm_compute. reflexivity. Qed.
+""")
